@@ -148,6 +148,8 @@ class Gen:
             return ("m:%d:%d" % (k, rng.choice(MAXES))) if sep == ":" else ("m~%d" % rng.choice(MAXES))
         if r < 0.90 and is_sub and self.allow_max:
             return ("um:%d" % k) if sep == ":" else "um"
+        if not is_sub and r < 0.86:
+            return self.set_cmd(k, sep) if r < 0.74 else self.rem_cmd(k, sep)
         if r < 0.93:
             ps = uniq([with_filter(rng, subpat(rng, self.n)) for _ in range(rng.choice([1, 2]))])
             return ("g:%d:%s" % (k, "&".join(ps))) if sep == ":" else ("g~%s" % "&".join(ps))
@@ -225,18 +227,23 @@ class CHECK(vlib.Check):
                 "regex/PathMatcher.cpp PutPathString/RemovePathString/SetFilterForEntry/MatchesPath; reflector/DataNode.cpp PutChild/SetParent/"
                 "SetData/RemoveChild.  Not modelled: ordered indices, ADDTOINDEX/ENABLESUPERCEDE, reflect-to-self, disabled subscriptions, "
                 "the iteration order inside the pooled subscriber tables (ImmutableHashtablePool cache), sockets and the event loop.")
-    premises = ["client-mirror rule: the client applies every PR_RESULT_DATAITEMS in order (removals first, then sets); the server sends no "
-                "removals on unsubscribe, so on its own unsubscribe the client drops what its remaining subscriptions no longer cover; "
-                "an exact mirror needs no explicit GETDATA, no quiet set/remove/subscribe",
-                "MatchLaws: clause text equality is decidable; '*' matches every name; a clause reported unique / list-of-unique-values "
-                "(ckeys) matches exactly the listed names (C15's unique_spec; F8 lies outside)",
-                "well-formed histories: distinct session ids and node names of sessions, relative SETDATA paths without empty clauses, "
-                "fewer than 2^31 subscriptions per session, one spelling per subscription path",
+    premises = ["client-mirror rule (Refl/Mirror.v): the client applies every PR_RESULT_DATAITEMS in order (removals first, then sets); the "
+                "server sends no removals on unsubscribe, so on its own unsubscribe the client drops what its remaining subscriptions "
+                "no longer cover",
+                "mirror_converges_partial holds for loud histories (no quiet set/remove/subscribe anywhere) and an observer that sends "
+                "no explicit GETDATA, batches no unsubscribe and whose SUBSCRIBE: fields per Message have distinct non-empty paths",
+                "MatchLaws (Refl/BaseProofs.v): clause text equality is decidable; '*' matches every name; a clause reported unique / "
+                "list-of-unique-values (ckeys) matches exactly the listed names (C15's unique_spec; F8 lies outside)",
+                "well-formed histories: a session arrives under a fresh (host, session-name) pair (ids come from a counter); fewer than "
+                "2^31-1 SUBSCRIBE: items (uint32 counts / int32 deltas); BATCH nesting below the server's limit of 100",
+                "\"own nodes\" = the code's own test (name of the depth-2 ancestor = session id string); equals the session's subtree "
+                "when session names are unique and no host is named like a session",
                 "memory safety and object lifetime of the C++ (observed by ASan/UBSan in the harness only)"]
     rule = ("multi-client histories generated from random.Random(seed) (streams: single subscriber with max-items changes; several "
             "subscribers; directed boundary scripts); after EVERY op: per-client PR_RESULT_DATAITEMS streams, the true tree with every "
             "node's subscriber table, every session's subscription entries and max-items, and every client's mirror are compared with "
-            "the extracted model; the harness's own oracle (mirror == foreign nodes accepted by PathMatcher::MatchesPath over the real "
+            "the extracted model (stream multimax: several subscribers with max-items changes, the per-op NET EFFECT of each client's "
+            "Messages instead of the Messages, because their split points depend on the unmodelled pool iteration order); the harness's own oracle (mirror == foreign nodes accepted by PathMatcher::MatchesPath over the real "
             "tree) is evaluated at every quiescent point.  Non-trivial = the history contains a subscription and a later data change, "
             "removal or departure by another session.")
 
@@ -252,6 +259,12 @@ class CHECK(vlib.Check):
         for i in range(n // 10):
             g = Gen(rng, multi_subscribers=False, allow_quiet=True)
             out.append(("quiet", "q|" + g.case(rng.choice([6, 10, 16]), rng.choice([2, 3]))))
+        # several subscribers AND max-items changes: the split points of one client's updates then depend on the iteration
+        # order of the pooled subscriber tables (not modelled), so these cases compare the net effect of each op's Messages
+        # per client (label x) next to tree, subscriber tables, entries and mirrors; the oracle applies unchanged
+        for i in range(n // 4):
+            g = Gen(rng, multi_subscribers=True, allow_quiet=False, allow_max=True)
+            out.append(("multimax", "x|" + g.case(rng.choice([8, 12, 20]), rng.choice([2, 3, 4]))))
         return out
 
     def nontrivial(self, case):
